@@ -93,14 +93,14 @@ def model_check(v, prop, tier):
 
 GENCONC_CFG = """SPECIFICATION GSpec
 CONSTANTS
-  Keys = {{"k1", "k2"}}
-  Vals = {{"v1", "vb"}}
+  Keys = {keys}
+  Vals = {vals}
   BigVals = {{"vb"}}
   Readers = {readers}
   PoolSize = {pool}
   WriterOps = {wops}
-  ReaderOps = 2
-  MaxMerges = 1
+  ReaderOps = {rops}
+  MaxMerges = {merges}
   RemapRule = "end"
   HoldShardLock = TRUE
 INVARIANT Emit
@@ -113,7 +113,8 @@ def generated_schedules(v, tier, tag):
     q = tier == "quick"
     out = []
     for readers, pool, wops, num in (('{"r1", "r2"}', 1, 3, 300 if q else 3000), ('{"r1", "r2"}', 2, 3, 200 if q else 2000), ('{"r1"}', 1, 4, 100 if q else 1000)):
-        cfg = write_cfg(f"genconc_{tag}_{pool}_{wops}.cfg", GENCONC_CFG.format(readers=readers, pool=pool, wops=wops))
+        cfg = write_cfg(f"genconc_{tag}_{pool}_{wops}.cfg", GENCONC_CFG.format(readers=readers, pool=pool, wops=wops, rops=2, merges=1,
+                                                                              keys='{"k1", "k2"}', vals='{"v1", "vb"}'))
         r = tlc("Gen_Conc.tla", cfg, workers=1, timeout=1500, xmx="4g", metatag=f"genconc-{tag}-{pool}-{wops}",
                 simulate=f"num={num}", extra=["-depth", "120", "-seed", str(seed() * 1000 + pool * 10 + wops)])
         v.add_tlc(f"Gen_Conc simulation: {num} behaviours, readers={readers} pool={pool} writer ops={wops}", r)
@@ -126,6 +127,31 @@ def generated_schedules(v, tier, tag):
             d = json.loads(t.encode().decode("unicode_escape"))
             d["pool"] = pool
             out.append(d)
+    # ... and EVERY complete behaviour of tiny instances (breadth-first search with the history variable:
+    # one state per prefix of an interleaving), so that for these instances "for all interleavings" is
+    # enumerated on the real threads, not sampled
+    small = [("1 put/del of a two-call value, 1 get, 1 merge, 1 key", '{"r1"}', 1, 1, 1, 1, '{"vb"}'),
+             ("2 puts/dels (one-call and two-call values), 1 get, no merge, 1 key", '{"r1"}', 1, 2, 1, 0, '{"v1", "vb"}')]
+    if not q:
+        small += [("2 puts/dels, 1 get, 1 merge", '{"r1"}', 1, 2, 1, 1, '{"vb"}'), ("1 put/del, 2 gets, 1 merge", '{"r1"}', 1, 1, 2, 1, '{"vb"}'),
+                  ("1 put/del, 2 readers x 1 get, 1 merge, pool 1", '{"r1", "r2"}', 1, 1, 1, 1, '{"vb"}'),
+                  ("1 put/del, 2 readers x 1 get, pool 2", '{"r1", "r2"}', 2, 1, 1, 0, '{"vb"}')]
+    enum = {}
+    for n, (what, readers, pool, wops, rops, merges, vals) in enumerate(small):
+        cfg = write_cfg(f"genconc_{tag}_enum{n}.cfg", GENCONC_CFG.format(readers=readers, pool=pool, wops=wops, rops=rops, merges=merges,
+                                                                       keys='{"k1"}', vals=vals))
+        r = tlc("Gen_Conc.tla", cfg, workers=4, timeout=1500, xmx="6g", metatag=f"genconc-{tag}-enum{n}")
+        v.add_tlc(f"Gen_Conc enumeration: {what}", r)
+        if not r.ok:
+            raise ToolError(f"Gen_Conc enumeration failed: {r.out[-2000:]}")
+        seen = set(re.findall(r'<<"SCHEDULE", "(.*)">>', r.out))
+        for t in sorted(seen):
+            d = json.loads(t.encode().decode("unicode_escape"))
+            d["pool"] = pool
+            d["enumerated"] = n
+            out.append(d)
+        enum[what] = len(seen)
+    v.cov["interleavings_enumerated_completely"] = enum
     return out
 
 
@@ -141,6 +167,8 @@ def inputs_for(prop, tier):
             items.append({"kind": "forced-merge-vs-get"})
         for nth, keys, vlen, mf in ((2, 4, 10, 100), (3, 12, 10, 100), (6, 12, 10, 1000000), (12, 16, 40, 0), (3, 6, 9000, 100000), (4, 24, 200, 4000)):
             items.append({"kind": "forced-get-during-merge", "nth": nth, "keys": keys, "vlen": vlen, "max_file": mf})
+        for pool, fails in ((1, 1), (1, 3), (2, 2), (2, 5), (4, 4), (4, 9)):
+            items.append({"kind": "read-fault", "pool": pool, "fails": fails})
         for i in range(24 if q else 240):
             items.append({"kind": "stress", "threads": rnd.choice([2, 3, 4]), "ops": rnd.choice([5, 6, 8]), "keys": rnd.choice([1, 2, 2]),
                           "windows": 5 if q else 8, "pool": rnd.choice([0, 1, 1, 2, 4]), "cache": rnd.choice([1, 2, 256]),
